@@ -171,7 +171,23 @@ func registerIntrinsics(e *Engine) {
 		}
 		return false
 	}
-	in["zz.TrackWrites"] = func(fr *frame, a []value) value { fr.i.ps.trackW = a[0].(bool); return nil }
+	in["zz.TrackWrites"] = func(fr *frame, a []value) value {
+		if a[0].(bool) {
+			fr.i.startTracking()
+		} else {
+			fr.i.ps.trackW = false
+		}
+		return nil
+	}
+	in["zz.WriteLog"] = func(fr *frame, a []value) value {
+		out := []value{}
+		for _, w := range fr.i.ps.writes {
+			if w != "" {
+				out = append(out, w)
+			}
+		}
+		return out
+	}
 	in["zz.GlobalWrites"] = func(fr *frame, a []value) value { return len(fr.i.ps.writes) }
 
 	// ---------------- fmt ----------------
@@ -190,6 +206,7 @@ func registerIntrinsics(e *Engine) {
 		}
 		return concatStr(fr.i.ps, parts)
 	}
+	in["(runtime.errorString).Error"] = func(fr *frame, a []value) value { return "runtime error: " + a[0].(string) }
 	in["errors.New"] = func(fr *frame, a []value) value { return fr.i.newError(a[0]) }
 
 	// ---------------- strings ----------------
